@@ -35,6 +35,8 @@ type Prop struct {
 	// MaxProcs caps the number of worker processes (0 = number of CPUs); race/concurrency properties
 	// that need the cores inside one process use a small number.
 	MaxProcs int
+	// EvalCounters names the counters whose sum is reported as coverage.evaluations (default: number of cases).
+	EvalCounters []string
 	// StallSeconds > 0 enables Ctx.Checkpoint (input written to disk before each call) and the stall monitor.
 	StallSeconds int
 	// WorkerSetup runs once in each worker before the first case.
